@@ -123,6 +123,13 @@ def jobs(pid, tier):
                      need_outcomes=['loaded:declared_same']))
         J.append(Job('pickle_rt', dict(N=3, L=3, NT=2, variants=['declared_other_nolevels']),
                      need_outcomes=['loaded:declared_other_nolevels']))
+        jv = ['fresh_list', 'fresh_dict', 'fresh_order', 'other_order', 'other_order_load_order']
+        J.append(Job('json_rt', dict(N=3, L=2), need_outcomes=['loaded:' + v for v in jv]))
+        if not q:
+            J.append(Job('json_rt', dict(N=3, L=3, variants=['fresh_list', 'other_order']),
+                         need_outcomes=['loaded:fresh_list', 'loaded:other_order']))
+            J.append(Job('json_rt', dict(N=4, L=2, variants=['fresh_dict', 'other_order_load_order']),
+                         need_outcomes=['loaded:fresh_dict']))
     if pid == 'C13':
         J.append(Job('image', dict(N=4, L=2, styles=['names']), need_outcomes=['returned:preimage', 'returned:image']))
         J.append(Job('image', dict(N=3, L=2, styles=['levels']), need_outcomes=['returned:preimage', 'returned:image']))
